@@ -12,16 +12,11 @@ MANIFEST = dict(
     technique="Lean 4 proof (case analysis over an inductive closure of emitters; composition with the C17 codec theorem) + differential correspondence run over introspected emitters",
     design="5/C02",
 )
-GEN = ["Methods"]
-THEOREMS = [
-    "c02_emit_valid",
-    "c02_parse_emit",
-    "c02_nested_null_preserved",
-    "c02_payload_verbatim",
-    "c02_wire_roundtrip",
-    "c02_wire_single_line",
-    "c02_constructor_errors",
-    # extension: notification layer, error classes, client-side answers (Gen/Methods.lean is regenerated)
+GEN: list = []
+# supplementary (Props/C02Supp.lean): the notification layer, handlers, dispatcher, predicates, error classes and the client-side
+# answers; Gen/Methods.lean (regenerated method tables, completion limit, default codes) is needed by them only
+SUPP_GEN = ["Methods"]
+SUPP_THEOREMS = [
     "c02_methods_translated",
     "c02_method_tables_consistent",
     "c02_notification_senders_built",
@@ -38,8 +33,17 @@ THEOREMS = [
     "c02_roots_manager_notifications",
     "c02_to_specific_type",
     "c02_parse_batch_legacy_items",
-    "c02_send_message_id_kept",
     "c02_instances_independent",
+]
+THEOREMS = [
+    "c02_emit_valid",
+    "c02_parse_emit",
+    "c02_nested_null_preserved",
+    "c02_payload_verbatim",
+    "c02_wire_roundtrip",
+    "c02_wire_single_line",
+    "c02_constructor_errors",
+    "c02_send_message_id_kept",
 ]
 RULE = (
     "emitters enumerated by introspection of the package at run time (create_* constructors, JSONRPCMessage.create_* class "
@@ -940,7 +944,7 @@ class EmittersFallback(Emitters):
         cs = super().cases(ctx, budget)
         if budget == "quick":
             # reduced pass: every case whose payload carries a null nested at depth >= 2, every 3rd other case
-            cs = [c for i, c in enumerate(cs) if i % 4 == 0 or has_nested_null(c)]
+            cs = [c for i, c in enumerate(cs) if i % 6 == 0 or has_nested_null(c)]
         return cs
 
     def run_impl(self, cases):
